@@ -17,10 +17,6 @@ from ..normalize import local_env, expand, ctext, canon, conjuncts
 from .. import nxgraph as nxg
 from .. import flow
 
-ALLOWED_STORE_METHODS = {'nodes', 'edges', 'remove_node', 'add_edge'}
-WHOLE_STORE_OPS = {'clear', 'remove_nodes_from', 'remove_edges_from', 'add_nodes_from', 'add_edges_from', 'update',
-                   'clear_edges', 'add_node'}
-READ_ONLY_FUNCS = {'search_nodes'}
 
 
 def run(prog, rep):
@@ -37,112 +33,7 @@ def run(prog, rep):
     rep.rule('R5', 'whole-store operations confined to the storage classes', floor=2)
     rep.rule('R6', 'a deleted or merely looked-up graph id can be imported again (one-graph-per-store flavour)', floor=1)
 
-    storage_classes = {nxg.storage_class(prog, nxg.SHARED_SHELL), nxg.storage_class(prog, nxg.DISJ_SHELL)}
-
-    for modname in nxg.GRAPH_MODULES:
-        mod = prog.module(modname)
-        for m, cls, fn in prog.all_functions():
-            if m is not mod:
-                continue
-            fq = (cls.name + '.' if cls else '') + fn.name
-            if cls is not None:
-                fn = nxg.method(prog, cls, fn)
-            aliases = nxg.store_graph_aliases(fn)
-            in_storage = cls in storage_classes
-            # ---- R1 ----
-            for call in nxg.search_calls(fn):
-                if len(call.args) < 2:
-                    raise AnalysisError(f'{loc(mod, call)}: search_nodes without query')
-                target = call.args[0]
-                if not nxg.is_store_graph_expr(target, aliases):
-                    # queries over a private copy are not store enumerations -- unless we are inside the storage class,
-                    # where the existing-graph lookup must look at the store itself
-                    if in_storage:
-                        rep.instance('R1', f'{fq}: {norm(call, 100)}')
-                        rep.violation('R1', loc(mod, call), fq, norm(call, 120),
-                                      f'the storage class looks for the nodes of a graph id in {norm(target)} instead of the '
-                                      f'store: an already stored graph with that id is not found (and not replaced)')
-                    continue
-                conj = nxg.parse_query(prog, call.args[1], mod, cls)
-                gid = [v for op, f, v in conj if op == 'eq' and f == 'GraphID']
-                rep.instance('R1', f'{fq}: {norm(call.args[1], 110)}')
-                if not gid:
-                    rep.violation('R1', loc(mod, call), fq, norm(call.args[1], 140),
-                                  'this enumeration over the shared store has no GraphID conjunct: it sees (and the caller may '
-                                  'then touch) nodes of every graph in the store')
-                    continue
-                vtxt = ast.unparse(gid[0])
-                params = {a.arg for a in fn.args.args + fn.args.kwonlyargs}
-
-                def is_gid(e):
-                    if isinstance(e, ast.IfExp):
-                        return is_gid(e.body) and is_gid(e.orelse)
-                    t = ast.unparse(e)
-                    return t == 'self.graph_id' or (t in params and 'graph_id' in t) or t.endswith('.graph_id')
-                alts = [gid[0]]
-                if isinstance(gid[0], ast.Name) and gid[0].id not in params:
-                    alts = flow.reaching_values(fn, gid[0].id) or [gid[0]]
-                ok = all(is_gid(a) for a in alts)
-                if not ok:
-                    rep.violation('R1', loc(mod, call), fq, norm(call.args[1], 140),
-                                  f'the GraphID conjunct compares with {vtxt}, which is not the graph id of this handle / call')
-            # ---- R2 / R5 ----
-            if in_storage:
-                continue
-            scoped, _ = nxg.scoped_id_sources(prog, fn, mod, cls)
-            for n in walk_no_nested(fn):
-                # method calls on the store graph
-                if isinstance(n, ast.Call) and isinstance(n.func, ast.Attribute) and nxg.is_store_graph_expr(n.func.value, aliases):
-                    meth = n.func.attr
-                    if meth == 'get_graph':
-                        continue
-                    rep.instance('R2', f'{fq}: {norm(n, 100)}')
-                    if meth in ('remove_node',):
-                        if not (n.args and nxg.id_expr_is_scoped(n.args[0], scoped)):
-                            rep.violation('R2', loc(mod, n), fq, norm(n, 120), 'node removed by an internal id that is not the result of a scoped lookup')
-                    elif meth == 'add_edge':
-                        if not (len(n.args) >= 2 and nxg.id_expr_is_scoped(n.args[0], scoped) and nxg.id_expr_is_scoped(n.args[1], scoped)):
-                            rep.violation('R2', loc(mod, n), fq, norm(n, 120), 'edge added between internal ids that are not results of scoped lookups')
-                    elif meth in WHOLE_STORE_OPS:
-                        rep.violation('R5', loc(mod, n), fq, norm(n, 120),
-                                      f'{meth}() is applied to the shared store graph outside the storage classes')
-                    elif meth in ('neighbors', 'subgraph', 'copy', 'number_of_nodes', 'has_node', 'has_edge', 'degree'):
-                        pass
-                    else:
-                        rep.violation('R2', loc(mod, n), fq, norm(n, 120), f'unrecognised operation {meth}() on the shared store graph')
-                # the store graph passed as an argument
-                if isinstance(n, ast.Call) and not (isinstance(n.func, ast.Attribute) and nxg.is_store_graph_expr(n.func.value, aliases)):
-                    for a in list(n.args) + [k.value for k in n.keywords]:
-                        if nxg.is_store_graph_expr(a, aliases):
-                            cn = call_name(n)
-                            rep.instance('R2', f'{fq}: store graph passed to {cn}()')
-                            if cn in READ_ONLY_FUNCS or cn in ('list', 'len'):
-                                continue
-                            if cn == 'contracted_nodes' and fn.name == 'merge_nodes':
-                                ids = n.args[1:3]
-                                if len(ids) == 2 and all(nxg.id_expr_is_scoped(x, scoped) for x in ids):
-                                    continue
-                            rep.violation('R2', loc(mod, n), fq, norm(n, 130),
-                                          f'the shared store graph (all graphs) is handed to {cn}(): whatever it changes is '
-                                          f'changed on the nodes of every graph in the store, not only on this graph')
-                # subscripted access .nodes[X] / .edges[X] on the store graph that is written through
-                if isinstance(n, ast.Subscript) and isinstance(n.value, ast.Attribute) and n.value.attr in ('nodes', 'edges') \
-                        and nxg.is_store_graph_expr(n.value.value, aliases):
-                    par = getattr(n, '_parent', None)
-                    written = False
-                    if isinstance(par, ast.Subscript) and isinstance(par.ctx, ast.Store):
-                        written = True
-                    if isinstance(par, ast.Attribute) and par.attr in ('update', 'pop', 'clear', 'setdefault', 'popitem'):
-                        written = True
-                    if isinstance(par, ast.Assign) and par.value is n:
-                        # alias of the live attribute dict (node_props = ...nodes[x]) -> written through later
-                        written = any(isinstance(t, ast.Name) for t in par.targets) and _alias_written(fn, par.targets[0].id)
-                    if written:
-                        rep.instance('R2', f'{fq}: write through {norm(n, 90)}')
-                        if not nxg.id_expr_is_scoped(n.slice, scoped):
-                            rep.violation('R2', loc(mod, n), fq, norm(n, 120),
-                                          'a node/edge attribute dictionary of the shared store is written through an internal '
-                                          'id that does not come from a GraphID-scoped lookup')
+    nxg.check_store_scoping(prog, rep, 'R1', 'R2', 'R5')
 
     # ---- R3 ----
     nxg.check_allocators(prog, rep, 'R3')
@@ -253,16 +144,6 @@ def run(prog, rep):
     # get_graph of the shared store ignores the id (documented): recorded as a note for readers
     rep.note('validate_graph reads every node of the shared store (get_graph ignores the id); it changes nothing, so it does '
              'not contradict isolation')
-
-
-def _alias_written(fn, name):
-    for n in walk_no_nested(fn):
-        if isinstance(n, ast.Subscript) and isinstance(n.value, ast.Name) and n.value.id == name and isinstance(n.ctx, ast.Store):
-            return True
-        if isinstance(n, ast.Call) and isinstance(n.func, ast.Attribute) and isinstance(n.func.value, ast.Name) and \
-                n.func.value.id == name and n.func.attr in ('update', 'pop', 'clear', 'setdefault', 'popitem'):
-            return True
-    return False
 
 
 NX = 'fim/graph/networkx_property_graph.py'
